@@ -9,7 +9,7 @@ func init() {
 				"forward entry convertVerticallIDToBit: the returned set is exactly the run from the bottom cell to the top cell (run length <= 4), for (voxel zoom, output zoom) in {(0,1),(0,2),(20,1)}",
 				"maxHeight < minHeight: error in both directions (any doubles)",
 			},
-			Outside: []string{"output zooms above 4 (solver time grows steeply with the number of halvings: zoom 4 needs several minutes)", "the forward entry at voxel zooms 25/30 and output zooms above 2 (solver unknown at 120 s)", "that the cell interval produced by the halving contains the altitude to the last ulp (the borders are rounded sums; only order properties are claimed)", "the inverse entry's contiguity beyond the error case (it goes through NewPoint / GetExtendedSpatialIdsOnPoints whose vertical kernel is C01)", "height ranges beyond +-10^6 m"},
+			Outside: []string{"the REVERSE direction (bit index back to a run of vertical indices): only its max < min error case is decided; a numeric harness for the cover of cell i did not finish", "output zooms above 4 (solver time grows steeply with the number of halvings: zoom 4 needs several minutes)", "the forward entry at voxel zooms 25/30 and output zooms above 2 (solver unknown at 120 s)", "that the cell interval produced by the halving contains the altitude to the last ulp (the borders are rounded sums; only order properties are claimed)", "the inverse entry's contiguity beyond the error case (it goes through NewPoint / GetExtendedSpatialIdsOnPoints whose vertical kernel is C01)", "height ranges beyond +-10^6 m"},
 		},
 		insts: func(tier string) []*Instance {
 			var is []*Instance
